@@ -85,7 +85,7 @@ func (h *histRun) count(c string) { h.counts[c]++ }
 
 // oracle clauses that belong to C17 only (the rogue suite of C11 does not judge them)
 var c17Only = map[string]bool{"entry-altered": true, "banned-entry-rewritten": true, "identity-changed": true, "migration-list": true,
-	"entered-unsigned": true, "persist-mismatch": true, "restart-differs": true, "restart-refused-empty-server-list": true}
+	"entered-unsigned": true, "ban-dropped": true, "persist-mismatch": true, "restart-differs": true, "restart-refused-empty-server-list": true}
 
 func (h *histRun) fail(what, key string, replay interface{}) {
 	if h.prop == "C11" && c17Only[key] {
@@ -388,6 +388,16 @@ func (h *histRun) round(plan map[glow.PublicKey]beh, label string) {
 			}
 			if !found {
 				h.fail("a server entered the client's list without appearing in an accepted, GCA-signed list", "entered-unsigned", replay)
+			}
+		}
+		// a GCA-signed ban in the accepted list is adopted, also for a server the client has never listed
+		// (otherwise that server's old authorization, replayed later, makes it usable: the ban reverted)
+		if accepted != nil {
+			for _, sv := range accepted.servers {
+				if g2, in := amap[sv.PublicKey]; sv.Banned && (!in || !g2.Banned) {
+					h.fail("a GCA-signed ban record in an accepted server list was not adopted by the client", "ban-dropped", replay)
+					break
+				}
 			}
 		}
 	}
